@@ -691,6 +691,10 @@ func horzSegSort(hs1, hs2 *HorzSegment) int {
 		return 0
 	}
 
+	if hs1.leftOp.pt.X > hs2.leftOp.pt.X {
+		return 1
+	}
+
 	return -1
 }
 
